@@ -28,7 +28,7 @@ def run(c):
               "un-parenthesised operator chains), 15% a valid source with 1-2 token mutations, 15% arbitrary strings "
               "(random bytes, PromQL alphabet, token soup, deep nesting, unterminated constructs). Ops: real ParseExpr on the "
               "text vs model parser on its tokens; real String() (lexed) vs model printer; real ParseExpr on the printed text "
-              "vs model. non-trivial = accepted AND (a binary/unary directly under a binary/unary, i.e. precedence decided "
+              "vs model; real lexer on every string literal and on truncations of it vs the byte-level string model. non-trivial = accepted AND (a binary/unary directly under a binary/unary, i.e. precedence decided "
               "the grouping, or a modifier, subquery, matching clause, StatsHouse extension, or a string value whose last character "
               "the printer escapes); rejected and accepted sources are interleaved in one process, so the pooled parser is "
               "reused after failed parses; distinct by op-sequence hash")
@@ -69,25 +69,32 @@ REPLAY_ARGS = [f"-arg={CORPUS}"]   # only read in -mode=corpus (label of the cor
 META = {
     "level": "proof",
     "technique": ("Lean 4 theorems over an executable token-level model of the PromQL printer and a reference precedence-climbing "
-                  "parser (precedence table, keyword lists, function names regenerated from parse.y / lex.go / functions.go) + "
-                  "differential correspondence of both with the real lexer / ParseExpr / String() + direct round-trip and no-panic "
-                  "oracle on the real code"),
-    "text": ("Kernel-checked: for every well-formed syntax tree (the shapes the parser produces: operands of an operator fit its "
-             "precedence/associativity, signs folded into number literals, subquery operands, argument counts, label/keyword lexing) "
-             "parsing the printed token sequence yields the same tree up to the duplicated metric-name matcher (parse_print, with "
-             "normSel_mem/normSel_fields showing the matcher SET and everything else is kept), with the default parser fuel proved "
-             "sufficient; `decide` witnesses show the printer before the fix violates it in six ways and that a 0-second range is "
-             "unprintable. The model parser and printer are tied to the code by replaying, per generated source, the real ParseExpr "
-             "(accept/reject and tree) and the real String() (token sequence) against the compiled model, and the model's `wf` is "
-             "evaluated on every tree the parser returns; arbitrary strings are fed to ParseExpr under recover."),
-    "note": ("Partial: (1) 'every tree the parser accepts is well-formed' is checked on every generated case (driver line `wf`), not "
-             "proved; (2) lexing is not modelled - the lexical round trip of numbers, strings, durations and the matcher order are "
-             "correspondence/oracle only, `@` timestamps are rendered exactly only for |ms| < 2^52; (3) 'never panics' is the direct "
-             "oracle only (escaping panics and runtime panics recovered inside ParseExpr). Trusted: Lean kernel; the reading of "
-             "'equivalent tree' (position fields ignored, matchers as a set, nil = empty list, NaNs identified); the correspondence "
-             "on generated inputs (quick 6000, thorough 150000 sources + corpus). The unchanged tree violates the property "
-             "(offsets and subquery ranges printed without unit, `offset [..]` list not printed, group_left/right dropped without "
-             "matching labels, `+Inf`, `{}`, `{__name__=\"\"}`): fixes/C28-printer-roundtrip.diff makes the check green. Known "
-             "finding zero-duration: a range or list offset below 500ms is stored as 0 seconds, which no duration literal denotes."),
+                  "parser (precedence table, keyword lists, function names regenerated from parse.y / lex.go / functions.go), a "
+                  "byte-level model of string-literal lexing, + differential correspondence of all of them with the real lexer / "
+                  "ParseExpr / String() + direct round-trip and no-panic oracle on the real code"),
+    "text": ("Kernel-checked, about the model: (1) accepted_roundtrip - for EVERY token stream the lexer can produce (tokOk: word "
+             "kinds agree with the lexer's classification; no 0-second duration token) and every tree the parser accepts on it, "
+             "parsing the printed token sequence yields the same tree up to the duplicated metric-name matcher; it combines "
+             "parse_print (every well-formed tree round-trips, default fuel proved sufficient) with Lemmas/PromSyntaxSound.parse_wf "
+             "(every tree the parser returns is well-formed: induction over the parser's fuel with the precedence-climbing "
+             "invariants). zero_duration_needed shows the one exclusion is necessary. (2) norm_norm, print_norm, print_parse_print, "
+             "roundtrip_fixpoint: norm is idempotent, invisible to the printer, and one round trip reaches a fixed point; "
+             "normSel_mem/normSel_fields: norm keeps the matcher set and every other field. (3) lexical layer for strings: "
+             "lexString_renderQ / lexStringTok_quoted - the model of lexString/lexEscape scans any %q-shaped body (plain bytes, "
+             "two-character escapes, \\xHH, \\uHHHH, \\UHHHHHHHH) to exactly its closing quote; string_token_roundtrip gives "
+             "the literal's value back under the explicit hypothesis unquote(quote v) = v; extra_rune_breaks_last_escape is the "
+             "seeded lexer bug as a `decide` witness. `decide` witnesses show the printer before the fix violated the property in six "
+             "ways. Ties: per generated source the real ParseExpr (accept/reject, tree), the real String() (token sequence), the real "
+             "lexer on every string literal and truncations of it (op lexstr) are replayed on the compiled models; the hypotheses "
+             "tokOk (line `lex`) and wf (line `wf`) are evaluated by the driver on every real token stream / returned tree."),
+    "note": ("Partial: lexing of numbers and durations is not modelled (their printed text round trip is correspondence/oracle only; "
+             "`@` timestamps rendered exactly for |ms| < 2^52); the contract of strconv.Quote / strutil.Unquote is a hypothesis of "
+             "string_token_roundtrip, discharged by the round-trip oracle only; the order in which matchers are printed is not "
+             "modelled; 'never panics' is the direct oracle only (escaping panics and runtime panics recovered inside ParseExpr). "
+             "Trusted: Lean kernel; the reading of 'equivalent tree' (position fields ignored, matchers as a set, nil = empty list, "
+             "NaNs identified); the correspondence on generated inputs (quick 6000, thorough 150000 sources + corpus). Known "
+             "finding zero-duration: a range or list offset below 500ms is stored as 0 seconds, which no duration literal denotes "
+             "(excluded from accepted_roundtrip by an explicit hypothesis, with witness). The printer defects found in round 1 "
+             "are fixed in /repo (fixes/C28-printer-roundtrip.diff)."),
     "design_ref": "DESIGN.md §6 C28",
 }
